@@ -324,7 +324,7 @@ Definition all_vals (l : list barg) : option (list gval) :=
 Definition convert_fuel : nat := 8.
 
 (* cog.Dump (the runtime helper the converters call for non-scalar values): a map entry whose value is nil is
-   not printed; everything else denotes the value again *)
+   not printed and a time.Time is printed as `time.Time{}`; everything else denotes the value again *)
 Fixpoint json_drop_null_members (j : json) : json :=
   match j with
   | JObj ms =>
@@ -341,6 +341,7 @@ Fixpoint json_drop_null_members (j : json) : json :=
 Fixpoint dump_gval (v : gval) : gval :=
   match v with
   | GAny j => GAny (canon (json_drop_null_members j))
+  | GTime _ _ => zero_time          (* dumpStruct prints exported fields only: `time.Time{}` *)
   | GPtr x => GPtr (dump_gval x)
   | GSlice l => GSlice (map dump_gval l)
   | GMap kvs =>
